@@ -139,6 +139,12 @@ def check(model, rep, tier):
       raise core.AnalysisError('%s: state function call / main template not found' % vn)
     statevar = core.norm(gcalls[0].args[0])
     sn = main[0].kwargs['symbol_names']
+    if isinstance(sn, ast.Name):
+      # a local that holds the tuple: its (single) definition
+      defs0 = [a_ for a_ in ast.walk(v.node) if isinstance(a_, ast.Assign) and
+               len(a_.targets) == 1 and core.norm(a_.targets[0]) == sn.id]
+      if len(defs0) == 1:
+        sn = defs0[0].value
     comp = sn.args[0] if isinstance(sn, ast.Call) and core.dotted(sn.func) == 'tuple' \
         and sn.args else sn
     ok = isinstance(comp, (ast.GeneratorExp, ast.ListComp)) and \
@@ -148,7 +154,16 @@ def check(model, rep, tier):
             comp.generators[0].target)
     rd = tpl.rdefs(v.node)
     d1 = rd.reaching(gcalls[0], statevar)
-    d2 = rd.reaching(main[0].call, statevar)
+    # (the state list at the place where the names are computed: the template
+    # call itself, or the assignment of the local that holds them)
+    sn_at = main[0].call
+    if isinstance(main[0].kwargs['symbol_names'], ast.Name):
+      defs_ = [a_ for a_ in ast.walk(v.node) if isinstance(a_, ast.Assign) and
+               len(a_.targets) == 1 and core.norm(a_.targets[0]) ==
+               main[0].kwargs['symbol_names'].id]
+      if len(defs_) == 1:
+        sn_at = defs_[0].value
+    d2 = rd.reaching(sn_at, statevar)
     same = d1 is not None and d2 is not None and [id(x) if not isinstance(
         x, tuple) else id(x[1]) for x in d1] == [id(x) if not isinstance(
             x, tuple) else id(x[1]) for x in d2]
